@@ -101,6 +101,15 @@ func runC15(c C15Case) string {
 		if d := model.Diff(model.TSV(wantNT), model.TSV(drive.TSOf(nt))); d != "" {
 			return fmt.Sprintf("NewTimestamp(GetDateTime(), GetPrecision(), GetTimezoneKind()) of %s gives %s: %s", s, nt.String(), d)
 		}
+		if t.Prec == model.PSecond {
+			unit := 1
+			for i := t.FracDigits; i < 9; i++ {
+				unit *= 10
+			}
+			if got := its.TruncatedNanoseconds(); got != t.Nanos/unit {
+				return fmt.Sprintf("TruncatedNanoseconds() of %s = %d, want %d", s, got, t.Nanos/unit)
+			}
+		}
 		for _, o := range tsNeighbours(t) {
 			if !o.ValidFields() || model.Diff(want, model.TSV(o)) == "" {
 				continue
